@@ -32,6 +32,22 @@ def run(prop, tier, seed, rep):
         x = decode_checks.GENERATORS[p](random.Random(rng.getrandbits(32)), "quick")
         rng.shuffle(x)
         ins += x[:q(1500, 12000)]
+    # one frame of every payload variant (every type code, every subtype of the types that have them, every BDS kind):
+    # a representation that collapses two variants shows on a round trip of exactly those
+    from gen import es_frame, rnd_frame, setf
+    for df in (17, 18):
+        for tc in range(32):
+            for st in range(8):
+                if tc == 31 and st < 2:
+                    b = es_frame(rng, df, 31, st31=st)
+                else:
+                    b = es_frame(rng, df, tc)
+                    setf(b, 37, 3, st)
+                ins.append({"bytes": list(b)})
+    for df in (20, 21):
+        for first in (0x00, 0x10, 0x20, 0x30, 0xff):
+            b = rnd_frame(rng, df); b[4] = first
+            ins.append({"bytes": list(b)})
     payload = "\n".join(json.dumps(x, separators=(",", ":")) for x in ins) + "\n"
     es = run_cmd(std, ["decode", "--text", "--ops", "--serde"], payload)
     ea = run_cmd(alloc, ["decode", "--text", "--ops"], payload)
@@ -41,6 +57,8 @@ def run(prop, tier, seed, rep):
         s = {"out": a["out"], "outcome": a["outcome"], "text": a.get("text", [])}
         if "serde" in a:
             s["serde"] = a["serde"]
+        if "serde_eq" in a:
+            s["serde_eq"] = a["serde_eq"]
         events.append({"ev": "cdecode", "bytes": a["bytes"], "std": s,
                        "alloc": {"out": b["out"], "outcome": b["outcome"], "text": b.get("text", [])}})
     n_dec = len(events)
